@@ -169,6 +169,10 @@ class ExprGen:
             t = r.choice(['0', '1', '2', '3', '7', '0.5', '2.5', '10', '1e+3', '12.', '100'])
             return ('num', t, float(t))
         self.nops += 1
+        if r.random() < 0.012 and any(len(n) >= 2 for n in self.vt):
+            # a call of a name that is bound to a value which is not a function (0, '', false, [], {} included): the arguments are evaluated, the
+            # call fails and yields null
+            return ('call', r.choice(sorted(n for n in self.vt if len(n) >= 2)), [self.num(d - 1) for _ in range(r.randint(0, 2))])       # (one-character names cannot be called)
         if r.random() < 0.012:
             # a spreadsheet-style alias (abs, max, len ...): these exist for evaluate_expression with builtins only - in a script, and with
             # builtins off, the name is undefined wherever the call stands (an if / while condition is no exception)
@@ -186,7 +190,8 @@ class ExprGen:
         if k < 0.78:
             return ('group', self.num(d - 1))
         if k < 0.84:
-            return ('call', 'if', [self.boolean(d - 1), self.num(d - 1), self.num(d - 1)][:r.choice([3, 3, 2])])
+            extra = [self.probe(self.num(0)) for _ in range(r.choice([0, 0, 0, 0, 1, 2]))]       # surplus arguments of if() are never evaluated
+            return ('call', 'if', ([self.boolean(d - 1), self.num(d - 1), self.num(d - 1)] + extra)[:r.choice([3, 3, 2, 5, 5])])
         if k < 0.88 and self.var('d'):
             return ('bin', '-', self.var('d'), self.var('d'))
         # lengths are host ints; adding a literal makes them floats, so that products computed in generated loops saturate to
